@@ -38,8 +38,14 @@ structure St where
   prog : List Stmt := []
   nat : Option (AG (Option PSt) × Option COp) := none
   goi : Option (Goi (progUB []) × Option COp) := none   -- σ does not depend on the program
+  hooks : Option HookCfg := none     -- `hooks fi fz`: asyncgen hooks installed (hook events are reported)
+  hsN : HookSt := {}
+  hsG : HookSt := {}
 
 def b01 (b : Bool) : String := if b then "1" else "0"
+
+def showHk (l : List HookEv) : String :=
+  if l.isEmpty then "hk=-" else "hk=" ++ ",".intercalate (l.map fun e => match e with | .firstiter => "fi" | .finalizer => "fz")
 
 def repN (a : AG (Option PSt)) (o : String) : String :=
   s!"{o} ; {b01 a.running} ; {cstTag a.frame} {showLog (logOf (cstState a.frame))}"
@@ -81,7 +87,18 @@ def step (st : St) (line : String) : St × String :=
     | _ => (st, "bad-prog")
   | ["mk"] =>
     ({ st with nat := some (⟨.created none, false, false⟩, none),
-               goi := some (⟨.created none, fun _ => 0, false⟩, none) }, "ok")
+               goi := some (⟨.created none, fun _ => 0, false⟩, none), hooks := none, hsN := {}, hsG := {} }, "ok")
+  | ["hooks", a, b] => ({ st with hooks := some ⟨a == "1", b == "1"⟩, hsN := {}, hsG := {} }, "ok")
+  | ["n", "gc"] =>
+    match st.nat with
+    | some (a, _) => (st, showHk (nativeHookGC st.hsN a))
+    | none => (st, "bad-op")
+  | ["g", "gc"] =>
+    match st.goi with
+    | some (g0, _) =>
+      let g : Goi (progUB st.prog) := ⟨g0.coro, g0.env, g0.running⟩
+      (st, showHk (goiHookGC st.hsG g))
+    | none => (st, "bad-op")
   | "n" :: args =>
     match st.nat with
     | none => (st, "bad-op")
@@ -104,7 +121,12 @@ def step (st : St) (line : String) : St × String :=
           s!"vals {",".intercalate (vals.map toString)} ; {fin} ; {cstTag a'.frame} {showLog (logOf (cstState a'.frame))}")
       | _ =>
         match stepNat (progUB st.prog) rfl a pend args with
-        | some (a', p, s) => ({ st with nat := some (a', p) }, s)
+        | some (a', p, s) =>
+          match st.hooks, args with
+          | some h, "call" :: _ =>
+            let hk := nativeHookCall h st.hsN a
+            ({ st with nat := some (a', p), hsN := hk.1 }, s ++ " ; " ++ showHk hk.2)
+          | _, _ => ({ st with nat := some (a', p) }, s)
         | none => (st, "bad-op")
   | "g" :: args =>
     match st.goi with
@@ -123,7 +145,11 @@ def step (st : St) (line : String) : St × String :=
           let p := match r.2, pend with
             | .pending _, _ => some op
             | _, p => p
-          ({ st with goi := some (back r.1, p) }, rep r.1 (showOut r.2))
+          match st.hooks with
+          | some h =>
+            let hk := goiHookCall h st.hsG g
+            ({ st with goi := some (back r.1, p), hsG := hk.1 }, rep r.1 (showOut r.2) ++ " ; " ++ showHk hk.2)
+          | none => ({ st with goi := some (back r.1, p) }, rep r.1 (showOut r.2))
         | none => (st, "bad-op")
       | ["send", v], some op =>
         match v.toInt? with
